@@ -130,6 +130,55 @@ def f(p: %(p)s, q, r: %(r)s = 3):
 '''
 
 
+FORM2_SRC = """
+from ptera import tag
+
+def f(p: %(p)s, q):
+    p: %(p2)s = p + 1
+    a: %(a)s = q
+    a: %(a2)s = a + p
+    return a
+"""
+
+
+def several_sites(chk):
+    """a variable annotated at several places — with tags, tag sets or annotations that are no tag at all, in any
+    order: each BINDING is captured iff its own annotation carries the tag (finding F41: a later annotation without
+    a tag erased the tags of the earlier ones)"""
+    import ptera
+    rng = chk.rng
+    alts = {"A": ["'@A'", "tag.A"], "B": ["'@B'", "tag.B"], "AB": ["'@A & @B'", "tag.B & tag.A"],
+            "none": ["int", "'plain string'", "None"]}
+    for _ in range(30 if chk.tier == "quick" else 400):
+        kinds = {k: rng.choice(["A", "B", "AB", "none", "none"]) for k in ("p", "p2", "a", "a2")}
+        choice = {k: rng.choice(alts[kinds[k]]) for k in kinds}
+        src = FORM2_SRC % choice
+        P, Q = rng.randrange(0, 5), rng.randrange(0, 5)
+        binds = [("p", P, "p"), ("q", Q, None), ("p", P + 1, "p2"), ("a", Q, "a"), ("a", Q + P + 1, "a2")]
+        has = lambda k, t: k is not None and t in {"A": "A", "B": "B", "AB": "AB", "none": ""}[kinds[k]]
+        chk.count(("several-sites", json.dumps(choice, sort_keys=True)),
+                  nontrivial=any(kinds[x] != "none" and kinds[y] == "none" for x, y in (("p", "p2"), ("a", "a2"))))
+        chk.dist("several sites: a tag then no tag" if any(kinds[x] != "none" and kinds[y] == "none" for x, y in (("p", "p2"), ("a", "a2")))
+                 else "several sites")
+        for t in "AB":
+            for sel, pick in (("f > $v:@%s" % t, lambda n_: True), ("f > a:@%s" % t, lambda n_: n_ == "a"),
+                              ("f(!*:@%s)" % t, lambda n_: True)):
+                want = [(n_, v) for n_, v, k in binds if has(k, t) and pick(n_)]
+                mod = pyprog.make_module(src, "verif_c11_sites")
+                try:
+                    with ptera.probing(sel, env=mod.__dict__, raw=True).values() as evs:
+                        mod.f(P, Q)
+                    got = [(c.name, c.value) for e in evs for c in e.values()]
+                except ptera.SelectorError as e:
+                    got = [] if not want else "refused: %s" % str(e)[-80:]
+                pyprog.drop_module(mod)
+                if got != want:
+                    chk.violation("oracle", "annotations %r: %s gives %r, the bindings annotated with %s are %r" % (
+                        choice, sel, got, t, want),
+                        {"family_src": src, "handlers": [{"selector": sel}], "roots": ["f(%d, %d)" % (P, Q)],
+                         "got": got if isinstance(got, list) else [got], "reference": want})
+
+
 def instrumented_sites(fn, elements):
     """variable names passed to interact() in the rewritten code, in source order"""
     import importlib
@@ -236,6 +285,7 @@ def run(chk):
     nf, nc = (4, 120) if chk.tier == "quick" else (24, 400)
     c03.run_cases(chk, nf, nc, gen_handlers, oracle)
     forms(chk)
+    several_sites(chk)
 
 
 replay = c03.replay
